@@ -208,6 +208,17 @@ func c13Items() []c13Item {
 		}
 		out = append(out, it)
 	}
+	// microsecond-precision elements: the System types keep milliseconds, and what they keep has to round-trip
+	for _, us := range []struct {
+		id, kind string
+		v        any
+	}{
+		{"f.dt.us", "DateTime", lib.ProtoDateTime("2020-01-15T10:30:15.123456Z")}, {"f.dt.us.off", "DateTime", lib.ProtoDateTime("2020-01-15T10:30:15.000120+05:30")},
+		{"f.instant.us", "DateTime", lib.ProtoInstant("2020-01-15T10:30:15.123456Z")}, {"f.instant.us.off", "DateTime", lib.ProtoInstant("2019-12-31T23:59:59.999999-11:00")},
+		{"f.time.us", "Time", lib.ProtoTime("10:30:15.123456")}, {"f.time.us.lead0", "Time", lib.ProtoTime("23:59:59.000120")},
+	} {
+		out = append(out, c13Item{id: us.id, v: us.v, kind: us.kind, class: "fhir." + strings.ToLower(us.kind) + ".us"})
+	}
 	// elements that carry no value (only an id, an extension, a unit): whatever toT
 	// makes of them, convertsToT has to agree and the result has to be a T
 	ext := []*dtpb.Extension{{Url: fhir.URI("http://u"), Value: &dtpb.Extension_ValueX{Choice: &dtpb.Extension_ValueX_StringValue{StringValue: fhir.String("x")}}}}
